@@ -15,6 +15,6 @@ for nm, fn in (("Schema.v", genfacts.gen_schema), ("PyFacts.v", genfacts.gen_pyf
         same = "generation fails: %s" % e
     print("facts %s: %s" % (nm, "same as built" if same is True else ("DIFFERENT (a rebuild would re-check the obligations over them)" if same is False else same)))
 PY
-for p in $checks; do echo $p; done | xargs -P 8 -I{} sh -c "VERIF_REPO=$tree VERIF_EVIDENCE_SUFFIX=.dev timeout 2400 harness/check.py {} --no-build 2>&1 | grep -E '^VIOLATION|findings=|^  \[' | cut -c1-260 | head -4" | grep -v "findings=0"
+for p in $checks; do echo $p; done | xargs -P 8 -I{} sh -c "VERIF_REPO=$tree VERIF_EVIDENCE_SUFFIX=.dev VERIF_DEV_NOPROPS=1 timeout 2400 harness/check.py {} --no-build 2>&1 | grep -E '^VIOLATION|findings=|^  \[' | cut -c1-260 | head -4" | grep -v "findings=0"
 rm -f evidence/*.dev.json
 echo "devcheck done: $tree"
